@@ -385,6 +385,9 @@ func (c *Client) CallWithAlphabetWitness(ctx context.Context, contract util.Uint
 //   - true await flag always means additional subscription for [Client] which
 //     is always limited on server side, use it carefully.
 func (c *Client) NotarySignAndInvokeTX(mainTx *transaction.Transaction, await bool) error {
+	if ok, _, err := c.verifIntercept("NotarySignAndInvokeTX", mainTx, await); ok {
+		return err
+	}
 	var conn = c.conn.Load()
 
 	if conn == nil {
